@@ -25,6 +25,40 @@ fn main() {
         return;
     }
     let id = args[0].as_str();
+    // fuzzing glue (used by fuzz/campaign.sh): artefact -> replay file, corpus replay, evidence merge
+    if args.len() >= 4 && (args[1] == "--fuzz-artifact" || args[1] == "--corpus") {
+        let mode = match args[2].as_str() {
+            "raw" => rtcp_verif::fuzz::Mode::Raw,
+            "spec" => rtcp_verif::fuzz::Mode::Spec,
+            _ => usage(),
+        };
+        if args[1] == "--fuzz-artifact" {
+            std::process::exit(rtcp_verif::fuzz::convert_artifact(id, mode, &args[3]));
+        }
+        match rtcp_verif::fuzz::run_corpus(id, mode, &args[3..]) {
+            Err(e) => {
+                eprintln!("{e}");
+                std::process::exit(2);
+            }
+            Ok((files, nontrivial, known, None)) => {
+                println!("OK property={id} corpus files={files} nontrivial={nontrivial} known_finding_hits={known}");
+                std::process::exit(0);
+            }
+            Ok((_, _, _, Some((file, _)))) => std::process::exit(rtcp_verif::fuzz::convert_artifact(id, mode, &file)),
+        }
+    }
+    if args.len() >= 4 && args[1] == "--write-seeds" {
+        let mode = match args[2].as_str() {
+            "raw" => rtcp_verif::fuzz::Mode::Raw,
+            "spec" => rtcp_verif::fuzz::Mode::Spec,
+            _ => usage(),
+        };
+        let n = args.get(4).and_then(|s| s.parse().ok()).unwrap_or(200);
+        std::process::exit(rtcp_verif::fuzz::write_seeds(id, mode, &args[3], n));
+    }
+    if args.len() >= 3 && args[1] == "--merge-fuzz" {
+        std::process::exit(run::merge_fuzz_evidence(id, &args[2]));
+    }
     let mut tier = match std::env::var("VERIF_TIER").ok().as_deref() {
         Some("thorough") => Tier::Thorough,
         _ => Tier::Quick,
